@@ -1,2 +1,3 @@
 import TinodeVerif.Props.C05
 import TinodeVerif.Props.C04
+import TinodeVerif.Props.C20
